@@ -471,6 +471,20 @@ func (e *Engine) callStatic(fn *ssa.Function, args []Value, bind []Value, pos to
 
 func (e *Engine) invoke(recv *IfaceV, m *types.Func, args []Value, pos token.Pos) Value {
 	tb := e.tb
+	if m.Pkg() != nil {
+		switch m.Pkg().Path() {
+		case "log/slog", "log":
+			// logging interfaces are no-ops whatever the receiver
+			res := m.Type().(*types.Signature).Results()
+			switch res.Len() {
+			case 0:
+				return nil
+			case 1:
+				return e.zero(res.At(0).Type())
+			}
+			return e.zero(res)
+		}
+	}
 	nilG := tb.False
 	for _, a := range recv.Alts {
 		if a.T == nil {
